@@ -3678,6 +3678,12 @@ impl KotoVm {
                         break;
                     }
 
+                    // The call didn't complete, so the register that was waiting for its
+                    // result should keep the value that it had before the call.
+                    if let Some(caller_frame) = self.call_stack.iter_mut().rev().nth(1) {
+                        caller_frame.return_value_register = None;
+                    }
+
                     self.pop_frame(KValue::Null)?;
 
                     if !self.call_stack.is_empty() {
